@@ -17,6 +17,7 @@ import time
 
 VERIF = os.path.dirname(os.path.dirname(os.path.abspath(__file__)))
 REPO = os.environ.get("VERIF_REPO", "/repo")
+EVID = os.environ.get("VERIF_EVIDENCE_DIR", os.path.join(VERIF, "evidence"))          # selftest redirects this
 
 
 class Ob:
@@ -213,7 +214,7 @@ def main(argv):
 
     # 2. classify, replay counterexamples
     violations, known_lines, inconclusive, errors, unconfirmed = [], [], [], [], []
-    replay_dir = os.path.join(VERIF, "evidence", "replays", prop)
+    replay_dir = os.path.join(EVID, "replays", prop)
     functions = set()
     for o in obs:
         r = results.get(o.id) or {"verdict": "ERROR", "error": "no result", "known": [], "samples": []}
@@ -309,8 +310,8 @@ def main(argv):
         "wall_s": round(time.time() - t0, 2),
         "violations": len(violations),
     }
-    os.makedirs(os.path.join(VERIF, "evidence"), exist_ok=True)
-    with open(os.path.join(VERIF, "evidence", f"{prop}.json"), "w") as f:
+    os.makedirs(EVID, exist_ok=True)
+    with open(os.path.join(EVID, f"{prop}.json"), "w") as f:
         json.dump(ev, f, indent=1, default=str)
 
     print(f"[{prop} {tier}] obligations={len(counted)} discharged={len(holds)} paths={paths} "
